@@ -872,6 +872,10 @@ def leak_judge(c, o):
     bad = []
     nominal = {"err": "failed"}.get(c["nominal"], c["nominal"])
     allowed = {nominal, "timeout"} if c["timer"] else {nominal}
+    if c["timer"] and c.get("heavy", 0) >= 60 and nominal == "ok":
+        # one application of the cubic join over >= 60 facts (216,000 combinations) cannot complete within the 300 us budget:
+        # the deadline passes DURING the evaluation, which must stop with the timeout error and can never report success
+        allowed = {"timeout"}
     if o["res"] not in allowed:
         bad.append("outcome %s, specification allows %s" % (o["res"], sorted(allowed)))
     if o.get("stranded", 0) > 0:
@@ -893,7 +897,7 @@ def c11(run):
                 "Non-trivial = distinct scenario x entry point combinations.")
     run.assumptions = ["stranded = goroutine with a datalog.combine / World.Run frame still parked on a channel after no datalog "
                        "goroutine is runnable any more (polled up to 4 s)",
-                       "timer scenarios use a 300 us budget on a cubic join; either the timeout or the nominal outcome is accepted"]
+                       "timer scenarios use a 300 us budget on a cubic join over 60 facts; the timeout or a nominal ERROR outcome is accepted, success is not (it needs a complete rule application, >= 216,000 combinations)"]
     driver = core.build_driver(run.work)
     r = core.tlc(run.work, "GoRoutines", "GoRoutines_fixed", deadlock=False)
     run.add_tlc(r, "L1 protocol: NoStranded + liveness + export")
